@@ -997,11 +997,74 @@ pub unsafe extern "C" fn poll(fds: *mut libc::pollfd, nfds: libc::nfds_t, timeou
         sched::step_done(op, r as i64);
         return cvt(r) as c_int;
     }
+    if sched_on() && nfds > 1 {
+        let op = Op::PollN { ptr: fds as usize, n: nfds as usize, timeout };
+        let d = sched::point(op);
+        let r = match d {
+            Decision::TimerFired => {
+                for i in 0..nfds as usize {
+                    (*fds.add(i)).revents = 0;
+                }
+                0
+            },
+            _ => raw::poll(fds, nfds as usize, 0),
+        };
+        sched::step_done(op, r as i64);
+        return cvt(r) as c_int;
+    }
     let r = raw::poll(fds, nfds as usize, timeout);
     if nfds >= 1 {
         trace_push("poll", (*fds).fd, timeout as i64, r as i64, vec![], 0);
     }
     cvt(r) as c_int
+}
+
+// read/write family on *sockets the ledger knows*: a refactoring may move packets with these instead
+// of recv/send; everything else (files, pipes, stdio) is passed through untouched
+
+unsafe fn is_ledger_socket(fd: c_int) -> bool {
+    if !active() {
+        return false;
+    }
+    matches!(lookup(fd).map(|i| i.kind), Some(Kind::Sock))
+}
+
+#[no_mangle]
+pub unsafe extern "C" fn read(fd: c_int, buf: *mut c_void, len: size_t) -> ssize_t {
+    if is_ledger_socket(fd) {
+        return recv(fd, buf, len, 0);
+    }
+    cvt(sc3(libc::SYS_read, fd as usize, buf as usize, len))
+}
+
+#[no_mangle]
+pub unsafe extern "C" fn write(fd: c_int, buf: *const c_void, len: size_t) -> ssize_t {
+    if is_ledger_socket(fd) {
+        return send(fd, buf, len, 0);
+    }
+    cvt(sc3(libc::SYS_write, fd as usize, buf as usize, len))
+}
+
+#[no_mangle]
+pub unsafe extern "C" fn readv(fd: c_int, iov: *const libc::iovec, n: c_int) -> ssize_t {
+    if is_ledger_socket(fd) {
+        let mut m: msghdr = std::mem::zeroed();
+        m.msg_iov = iov as *mut libc::iovec;
+        m.msg_iovlen = n as _;
+        return recvmsg(fd, &mut m, 0);
+    }
+    cvt(sc3(libc::SYS_readv, fd as usize, iov as usize, n as usize))
+}
+
+#[no_mangle]
+pub unsafe extern "C" fn writev(fd: c_int, iov: *const libc::iovec, n: c_int) -> ssize_t {
+    if is_ledger_socket(fd) {
+        let mut m: msghdr = std::mem::zeroed();
+        m.msg_iov = iov as *mut libc::iovec;
+        m.msg_iovlen = n as _;
+        return sendmsg(fd, &m, 0);
+    }
+    cvt(sc3(libc::SYS_writev, fd as usize, iov as usize, n as usize))
 }
 
 #[no_mangle]
